@@ -19,3 +19,13 @@ def register(m):
     m("C07", "c07-celsius-literal-mismatch", CE, "    return value.value + Celsius.CELSIUS_TO_KELVIN_OFFSET", "    return value.value + 273", "U5")
     m("C07", "c07-evaluate-skips-si", CV, "        si_value = convert_to_si(qty)", "        si_value = qty.scale_factor * 1", "U6")
     m("C07", "c07-local-name-ok", CV, "    return value.scale_factor / target_unit.scale_factor", "    ratio = value.scale_factor / target_unit.scale_factor\n    return ratio", "SILENT")
+
+
+_o7 = register
+
+
+def register(m):
+    _o7(m)
+    m("C07", "c07-celsius-cached-on-instance", CE, "    return Quantity(to_kelvin(value) * units.kelvin)",
+      "    if getattr(value, '_k', None) is None:\n        value._k = Quantity(to_kelvin(value) * units.kelvin)\n    return value._k", "U7")
+    m("C07", "c07-convert-memoised", CV, "def convert_to_si(value: SupportsFloat) -> Expr:", "import functools\n\n\n@functools.lru_cache\ndef convert_to_si(value: SupportsFloat) -> Expr:", "U7")
